@@ -3,7 +3,7 @@
 cd /verif
 git -C /repo status --short | grep -q . && { echo "/repo not clean"; exit 2; }
 for d in seeded/*/; do
-  name=$(basename $d); pid=${name%%-*}
+  name=$(basename $d); pid=${name%%-*}; alt=$(jq -r '.check_with // empty' /verif/$d/meta.json); [ -n "$alt" ] && pid=$alt
   if ! git -C /repo apply --check /verif/$d/patch.diff 2>/dev/null; then echo "$name: PATCH-DOES-NOT-APPLY"; continue; fi
   git -C /repo apply /verif/$d/patch.diff
   out=$(./check $pid 2>&1)
